@@ -32,16 +32,18 @@ def r1_balance(run, F):
     run.require(len(impls) >= 4, "label_references Analyzable impls not found")
     for p in sorted(impls) + [LR + "analyze"]:
         a, b = mx.summary.get(p), mn.summary.get(p)
-        ok = a == 0 and b == 0 and not mx.unbounded and not mn.unbounded and not growx and not grown
+        unb = set(u[0] for u in mx.unbounded) | set(u[0] for u in mn.unbounded)
+        ok = a == 0 and b == 0 and p not in unb and p not in growx and p not in grown
         run.ob("R1-SCOPE-BALANCE", p.split(" as ")[0].replace("<alpha::common::", "") if " as " in p else p, ok, F.where(F.lib.bodies[p]),
                "push_scope/pop_scope balance over all paths must be exactly 0 (max %s, min %s): an unbalanced path leaks labels of "
-               "one block or function into another" % (a, b), sample={"fn": p, "max": a, "min": b})
+               "one block or function into another" % ("unbounded (grows through recursion)" if p in growx else a, "unbounded" if p in grown else b),
+               sample={"fn": p, "max": str(a), "min": str(b)})
     # closures in the region must be balanced too (they are run by std)
     for p in reg:
         if "{closure" in p:
             a, b = mx.summary.get(p), mn.summary.get(p)
-            run.ob("R1-SCOPE-BALANCE", "closure " + p.split("::")[-2][-30:] + p[-12:], a == 0 and b == 0, F.where(F.lib.bodies[p]),
-                   "closure balance max %s min %s" % (a, b))
+            run.ob("R1-SCOPE-BALANCE", "closure " + p.split("::")[-2][-30:] + p[-12:], a == 0 and b == 0 and p not in growx and p not in grown, F.where(F.lib.bodies[p]),
+                   "closure balance max %s min %s%s" % (a if p not in growx else "unbounded (grows through recursion)", b, ""))
 
 
 def r2_reverse(run, F):
